@@ -229,6 +229,11 @@ def dst(x, type=2, **kw):
             out[k] = acc
     else:
         raise NotEncodable('dst type %r' % type)
+    if kw.get('overwrite_x'):
+        # scipy: "the contents of x can be destroyed" - in practice the result is written into x and
+        # x's memory is returned (float64, contiguous). Modelled as exactly that, so aliasing is visible.
+        x[...] = out
+        return x
     return out
 
 
@@ -289,13 +294,13 @@ def stub_differentials(seed=0):
         raise RuntimeError('not a value: %s' % t)
     # dst exact for N=1..4, both types
     worst = 0.0
-    for N in (1, 2, 3, 4):
+    for N in (1, 2, 3, 4, 5, 6):
         for ty in (2, 3):
             xs = [rnd.randint(-9, 9) / 4 for _ in range(N)]
             sym = dst(_np.array([SR.lift(v) for v in xs], dtype=object), type=ty)
             ref = _fftpack.dst(_np.array(xs), type=ty)
             worst = max(worst, max(abs(fl(a) - b) for a, b in zip(sym, ref)))
-    out.append(('dst exact N<=4 vs scipy.fftpack.dst', worst < 1e-12, worst))
+    out.append(('dst exact N<=6 vs scipy.fftpack.dst', worst < 1e-12, worst))
     # the sine-sum definition itself for N up to 64 (floats)
     worst = 0.0
     for N in (5, 8, 13, 64):
